@@ -23,9 +23,8 @@ The method, as coded:
 1. candidates = user `global_attributes` ∪ description attributes ∪ every key that
    some field flags with `None`;
 2. forced = keys for which **every** field gives a (non-`None`) value and all the
-   values are equal — as coded `len(set(v)) == 1`, which raises `TypeError` for
-   list / array values; `fixes/C08-forced-global-unhashable.patch` compares with
-   `equal_properties` instead, which is what the model does;
+   values are equal (`equal_properties`; before /repo commit 78f8b2f `len(set(v)) == 1`,
+   which raised `TypeError` for list / array values);
 3. forced −= file descriptors; candidates −= `variable_attributes`, file
    descriptors, forced;
 4. a candidate stays iff field 0 has the property and every other field has an
